@@ -7,7 +7,7 @@
    is decided by correspondence + oracle only; see DESIGN.md. *)
 From Coq Require Import List NArith ZArith Bool.
 From TexModel Require Import Base Tables Chars Tokenizer Tree Reader.
-From TexProofs Require Import ReaderLen ReaderSim.
+From TexProofs Require Import TokProofs ReaderLen ReaderSim ReaderCons ConsTop.
 Import ListNotations.
 
 (* clause 1: whenever strict parsing succeeds, tolerant parsing returns the
@@ -24,6 +24,18 @@ Theorem C07_conservative_expr :
     read_expr f skip true m toks = Ok r -> read_expr f skip false m toks = Ok r.
 Proof. intro f. exact (proj1 (sim_all_holds f)). Qed.
 Print Assumptions C07_conservative_expr.
+
+(* clause 3: whenever tolerant parsing succeeds its output is the token texts
+   of the input, in order, with nothing changed except inserted closers
+   `}` `]` `\end{name}` (and argument spacers dropped as in strict mode):
+   `Rel true` of ReaderCons.v.  Hypotheses as in Props/C08.v. *)
+Theorem C07_only_closers :
+  forall (s : str) (user : list str) (t : expr) (toks : list token),
+    tokens_of_string s = (toks, TEnd) -> parse s false user = Ok t ->
+    Hyp (all_skip user) toks -> nobare t = true ->
+    Rel true toks (estr t).
+Proof. intros s user t toks. exact (parse_conserves_hyp s false user t toks). Qed.
+Print Assumptions C07_only_closers.
 
 (* non-vacuity: a document strict parsing accepts; and one only tolerant parsing accepts *)
 Example C07_ex_both :
